@@ -369,16 +369,18 @@ def waiting_reads_cancel_safe(tree, rep, rule):
     ok = True
     for a in apps:
         defs = [d for d in local_defs(fn, a.args[0].id)]
-        good = False
+        good = bool(defs)
         for d in defs:
+            this = False
             if isinstance(d, ast.Call) and (dotted(d.func) or "").split(".")[-1] == "Deferred":
                 canc = d.args[0] if d.args else next((k.value for k in d.keywords if k.arg == "canceller"), None)
                 if canc is not None:
                     from ..astutil import callback_function
                     target = callback_function(canc, fn, methods)
-                    good = target is not None and any(
+                    this = target is not None and any(
                         isinstance(x, ast.Call) and isinstance(x.func, ast.Attribute) and x.func.attr in ("remove", "discard")
                         and is_self_attr(x.func.value, "_observers") for x in ast.walk(target))
+            good = good and this        # EVERY way the waiting Deferred is created carries the canceller
         ok = ok and good
     rep.check(rule, "SequenceObserver.when_next_event: a waiting Deferred has a canceller that removes it from _observers (a cancelled "
               "get_message() cannot swallow the next message)", ok, site(fn, OBS), key="%s:SequenceObserver.when_next_event:cancel-safe" % rule,
@@ -525,6 +527,8 @@ def run(tree, rep, tier):
     r2(tree, prog, rep)
     r3(tree, prog, rep)
     r4_r5(tree, prog, rep)
+    from .. import delegate
+    delegate.check(tree, rep, "C03.R8", only=("received",), why=" (messages out of order, skipped or repeated)")
     from .. import payload
     payload.check(tree, rep, "C03.R7", "dropped, or never delivered together with everything behind it (a record skipped)")
     r6(tree, rep, tier)
@@ -579,3 +583,7 @@ MUTANTS.append(Mutant("rx-delivery-error-swallowed", BOSS, "            self._W.
                       "a raising application handler leaves the phase current: delivered again with the next arrival (seed C02-11)"))
 MUTANTS.append(Mutant("reorder-buffers-aliased", BOSS, "        self._rx_phases = {}  # phase -> plaintext", "        self._rx_phases = self._rx_dilate_seqnums = {}  # phase -> plaintext", ("C03.R0", "C03.R2"),
                       "one dict for the application reorder buffer and the dilation one"))
+WHF = "src/wormhole/wormhole.py"
+MUTANTS.append(Mutant("delegate-received-buffers", WHF, "    def received(self, plaintext):\n        self._delegate.wormhole_got_message(plaintext)",
+                      "    def received(self, plaintext):\n        if not getattr(self, \"_have_versions\", True):\n            return\n        self._delegate.wormhole_got_message(plaintext)", "C03.R8", "seed C03-16 family"))
+MUTANTS.append(Mutant("observer-canceller-only-when-waiting", OBS, "        d = Deferred(self._forget_observer)\n", "        d = Deferred() if self._results else Deferred(self._forget_observer)\n", "C03.R3", "seed C03-17"))
